@@ -41,6 +41,11 @@ def skeletons():
         ("butadiene-like", 8, [(0, 1), (1, 2), (2, 3), (0, 4), (0, 5), (1, 6), (2, 7)]),
         ("cube", 8, [(0, 1), (1, 2), (2, 3), (3, 0), (4, 5), (5, 6), (6, 7), (7, 4), (0, 4), (1, 5), (2, 6), (3, 7)]),
         ("bridgeH", 8, [(0, 6), (6, 1), (0, 7), (7, 1), (0, 2), (0, 3), (1, 4), (1, 5)]),
+        # disconnected graphs whose components colour refinement cannot tell apart (the matcher must backtrack over components)
+        ("C3+C3", 6, [(0, 1), (1, 2), (2, 0), (3, 4), (4, 5), (5, 3)]),
+        ("P2+P2+P2", 6, [(0, 1), (2, 3), (4, 5)]),
+        ("C3+C3+C6", 12, [(0, 1), (1, 2), (2, 0), (3, 4), (4, 5), (5, 3)] + [(6 + i, 6 + (i + 1) % 6) for i in range(6)]),
+        ("P3+P3", 6, [(0, 1), (1, 2), (3, 4), (4, 5)]),
     ]
     return out
 
